@@ -1025,6 +1025,22 @@ fn to_lines_case(content: &str, attrs: &[Attribution], em: &mut Emitter, mut tag
                             "to-lines:whitespace-only-author-wins-line"));
     }
     tags.push("to_lines".into());
+    // distribution: some AI attribution touches a line with content in whitespace only (the shape
+    // `winner_has_non_ws` is about: inherited indentation, the line break in front of a line)
+    let ws_touch = line_ranges(content).iter().any(|&(ls, le)| {
+        !all_ws(&content.as_bytes()[ls..le])
+            && attrs.iter().any(|a| {
+                let (s, e) = (a.start.max(ls), a.end.min(le));
+                a.author_id != HUMAN
+                    && s < e
+                    && content.is_char_boundary(s)
+                    && content.is_char_boundary(e)
+                    && all_ws(&content.as_bytes()[s..e])
+            })
+    });
+    if ws_touch {
+        tags.push("to_lines:ai-touches-only-whitespace-of-a-line".into());
+    }
     emit_case(
         em,
         json!({"op": "tr_to_lines", "content": content, "attrs": jattrs(attrs)}), imp, oracles, tags);
